@@ -259,12 +259,14 @@ def pf_periodic(D, T=4, kind='contract', period='2h', duration=None, ec=False, e
     return Shape(pf, tg, prices_for(D, pr, T))
 
 
-def mk_orderbook(D, name, node, tg, orders, full_exec=False, capa_sym=False, wacc=0):
+def mk_orderbook(D, name, node, tg, orders, full_exec=False, capa_sym=False, wacc=0, skip=None):
     """orders: list of (k0, k1, capa, sign) with window in step indices (may lie outside the horizon);
     capacity concrete at Level A (it multiplies the execution variable in nodal rows), price symbolic"""
     eao = lift.import_eao()
     st, en, capa, price = [], [], [], []
     for i, (k0, k1, cp) in enumerate(orders):
+        if skip is not None and i == skip:
+            continue          # same book without this order (symbols of the others keep their names)
         s, e = window(tg, (k0, k1))
         st.append(s); en.append(e)
         capa.append(D.coef('%s_capa%d' % (name, i), cp))
